@@ -84,10 +84,11 @@ def classify_errback(op, size, name):
     return "%s:errback:%s" % (op[0], name)
 
 
-def run_history(fmt, init, hist, prefix, check_ranges=True):
+def run_history(fmt, init, hist, prefix, check_ranges=True, batch=False):
     """replay hist (default schedule), the last op under `prefix`.  returns trace, viols, obs"""
     ch = grid.Chooser(prefix)
     g = grid.Grid(3, chooser=ch, client_kw=dict(k=2, n=3, happy=2))
+    g.sched.batch = batch     # turn granularity, see grid.Sched.batch
     viol, obs = [], {}
     try:
         ref = pattern(0, init)
@@ -147,14 +148,14 @@ def run_history(fmt, init, hist, prefix, check_ranges=True):
     return ch.trace, viol, obs
 
 
-def _transitions(chunk, d_bound):
+def _transitions(chunk, d_bound, batch=False):
     res = common.Result()
     out = []
     for (fmt, init, hist) in chunk:
         info = {}
 
         def ex(prefix):
-            trace, viol, obs = run_history(fmt, init, hist, prefix)
+            trace, viol, obs = run_history(fmt, init, hist, prefix, batch=batch)
             return trace, (viol, obs)
 
         def on_exec(prefix, trace, pair):
@@ -166,7 +167,7 @@ def _transitions(chunk, d_bound):
                 info["size"] = obs.get("size")
                 info["bad"] = bool(viol)
             for sig, msg in viol:
-                res.violation(sig, {"fmt": fmt, "init": init, "history": hist, "prefix": prefix}, msg + " schedule=%r" % (prefix,))
+                res.violation(sig, {"fmt": fmt, "init": init, "history": hist, "prefix": prefix, "batch": batch}, msg + " schedule=%r%s" % (prefix, " (several answers per reactor turn)" if batch else ""))
         grid.explore_subtree(ex, [], d_bound, 0, on_exec, max_exec=400)
         res.count("transitions")
         out.append((fmt, init, hist, info.get("size"), info.get("bad", True)))
@@ -175,7 +176,7 @@ def _transitions(chunk, d_bound):
 
 
 def replay(case):
-    trace, viol, obs = run_history(case["fmt"], case["init"], case["history"], case["prefix"])
+    trace, viol, obs = run_history(case["fmt"], case["init"], case["history"], case["prefix"], batch=bool(case.get("batch")))
     return viol
 
 
@@ -196,6 +197,12 @@ def run(tier, seed):
         r = common.pmap(_transitions, frontier, (d_bound,), chunks=min(len(frontier), 256))
         outs = r.notes.pop("out", [])
         total.merge(r)
+        if level <= 2:
+            # the same transitions with several answers delivered per reactor turn (grid.Sched.batch)
+            r2 = common.pmap(_transitions, frontier, (max(0, d_bound - 1), True), chunks=min(len(frontier), 256))
+            r2.notes.pop("out", None)
+            r2.counts.pop("transitions", None)
+            total.merge(r2)
         nxt = []
         for (fmt, init, hist, size, bad) in outs:
             if bad or size is None:
@@ -218,7 +225,7 @@ def run(tier, seed):
         "remote_calls_delivered": total.counts.get("events", 0),
         "bfs_depth": depth,
         "outcomes": {k[8:]: v for k, v in total.counts.items() if k.startswith("outcome:")},
-        "rule": "BFS over operation histories from %d initial sizes x {SDMF, MDMF}, states merged on (format, size), depth %d; last operation of every history under every schedule within the deviation bound of its level" % (len(INIT_SIZES), depth),
+        "rule": "BFS over operation histories from %d initial sizes x {SDMF, MDMF}, states merged on (format, size), depth %d; last operation of every history under every schedule within the deviation bound of its level; levels 1-2 again with several answers delivered per reactor turn (one deviation less)" % (len(INIT_SIZES), depth),
     }
     return total, cov
 
